@@ -735,7 +735,7 @@ def spec_decode_hybrid(bs, w, count):
                 return None
             v = sum(bs[pos + i] << (8 * i) for i in range(vb))
             pos += vb
-            out += [v] * n
+            out += [v] * min(n, max(0, count - len(out)) + 1)      # only `count` values are wanted: a garbage run length is not materialised
     return out[:count]
 
 
